@@ -13,7 +13,7 @@ import fam_l
 from vlib import (Inconclusive, NCPU, build_harness, log, run, run_tlc, stage_spec, tla_value, validate_traces,
                   write_mc)
 
-M_INV = ["M_Init", "M_Launch", "M_Process", "M_Chain", "M_Loader"]
+M_INV = ["M_Init", "M_Launch", "M_Process", "M_Chain", "M_Loader", "M_Progress", "M_LoadedHeads"]
 P_OPS = {
     "C12": ["C11_Terminates", "C11_NoDupResult", "C11_WithinReach", "C11_ExactReach", "C11_FaultsAreSkipped"],
     "C09": ["C09_ReloadEqual"],
@@ -64,7 +64,7 @@ def make_instances(prop, tier, seed, shapes, fn):
     rnd = random.Random(seed)
     insts = []
 
-    def add(shape, rep, kind, n, conc, faults=None, excluded=(), timeout=False, start=None, tag="", rt=0):
+    def add(shape, rep, kind, n, conc, faults=None, excluded=(), timeout=False, start=None, tag="", rt=0, custom=False):
         info = shape["reps"][rep - 1]
         heads = list(info["heads"])
         if not heads:
@@ -88,7 +88,7 @@ def make_instances(prop, tier, seed, shapes, fn):
             "Fault": flt, "faults": {str(i): kd for i, kd in (faults or {}).items()},
             "Excluded": sorted(excluded), "Timeout": timeout, "D": shape["D"], "Fn": fn,
             "Orig": {"ents": info["ents"], "heads": heads, "values": info["values"], "lid": info["lid"]},
-            "tag": tag, "RealTimeout": rt,
+            "tag": tag, "RealTimeout": rt, "CustomManifest": custom,
         })
 
     for shape in shapes:
@@ -114,6 +114,13 @@ def make_instances(prop, tier, seed, shapes, fn):
                         if kind == "json" and conc != 2:
                             continue
                         add(shape, rep, kind, n, conc)
+                    # a head list in another order than this replica's own (a caller-assembled JSON head list, a manifest
+                    # written by a replica with another ordering): the outcome must not depend on it
+                    hs = list(info["heads"])
+                    if len(hs) >= 2 and kind in ("mh", "json"):
+                        add(shape, rep, kind, n, 2, start=hs[::-1], tag="headorder", custom=(kind == "mh"))
+                        if len(hs) >= 3:
+                            add(shape, rep, kind, n, 2, start=hs[1:] + hs[:1], tag="headorder", custom=(kind == "mh"))
         elif prop == "C12":
             # blocks that are well-formed CBOR but not decodable entries, planted at every position
             ids = sorted(info["ents"])
@@ -131,6 +138,9 @@ def make_instances(prop, tier, seed, shapes, fn):
                     for conc in ((2,) if q else (1, 2, 3)):
                         add(shape, rep, "fetch", -1, conc, faults={i: kd}, tag="fault1")
                         add(shape, rep, "mh", -1, conc, faults={i: kd}, tag="fault1")
+                    # the loaders that derive the heads from what they could fetch (islands below a gap keep their tops)
+                    add(shape, rep, "entry", -1, 2, faults={i: kd}, tag="fault1")
+                    add(shape, rep, "json", -1, 2, faults={i: kd}, tag="fault1")
             if not q:
                 for a, b in itertools.combinations(ids, 2):
                     if rnd.random() < 0.4:
